@@ -590,6 +590,12 @@ def proxy_cases(tier):
         for hs in itertools.combinations(KINDS, r):
             for spell in (canon, str.upper):
                 yield {"t": "proxy", "headers": [spell(h) for h in hs], "tp": True, "tpc": False, "sep": " "}
+    # header kinds the documentation does not list (real-world spellings of similar headers): unknown kinds
+    for other in ("x-real-ip", "x-forwarded-server", "x-client-ip", "forwarded-for", "x-forwarded", "via", "x-forwarded-prefix",
+                  "true-client-ip", "cf-connecting-ip", "x_forwarded_for", "x-forwarded-ssl", "x-forwarded-scheme", "x-cluster-client-ip"):
+        for extra in ([], ["x-forwarded-for"], ["x-forwarded-proto", "x-forwarded-host"]):
+            yield {"t": "proxy", "headers": extra + [other], "tp": True, "tpc": False, "sep": " "}
+            yield {"t": "proxy", "headers": [other.upper()] + extra, "tp": True, "tpc": True, "sep": " "}
     # an explicitly empty header list, and mixed-case kinds (documentation silent on case)
     for tp in (False, True):
         yield {"t": "proxy", "headers": [], "tp": tp, "tpc": False, "sep": " ", "empty": True}
